@@ -17,7 +17,12 @@ Words == {"cat", "grep", "tail", "map", ".ack", "health", "unknown", ""}
 Opts == {"none", "empty", "valid", "context", "noeq", "nonint", "b64good", "b64bad", "negbefore", "hugebefore"}
 Regexes == {"none", "default", "invert", "noop", "wrongprefix", "uncompilable", "noflag", "bogusflag"}
 Queries == {"valid", "empty", "blank", "lonebackquote", "unknownkeyword", "truncated", "badlogformat", "unknownagg"}
+\* queries the parser accepts whose numbers sit on a boundary (they reach timers, limits and slices in the aggregator)
+BoundaryQueries == {"interval0", "intervalneg", "intervalhuge", "limit0", "limitneg", "rorderlimit1", "setclause", "manyselect"}
 Files == {"existing", "missing", "directory", "emptyglob"}
+\* spellings of the file argument: wildcards in the last / in a directory component, non-canonical paths (the glob is
+\* cleaned for matching, identifiers are derived by pairing glob and path components), a directory with a trailing slash
+PathSpellings == {"glob", "globdir", "dslashglob", "dotglob", "dotdotglob", "dslashfile", "trailslash", "dslashglobdir", "longmissing"}
 
 ReadWords == {"cat", "grep", "tail"}
 \* the commands of the abstract alphabet (dependent fields only vary where the code looks at them)
@@ -25,7 +30,9 @@ Cmds == {[env |-> e, word |-> "cat", opts |-> "none", nargs |-> 4, regex |-> "de
    \cup {[env |-> "ok", word |-> w, opts |-> o, nargs |-> n, regex |-> IF n >= 3 THEN r ELSE "none", query |-> "valid", file |-> f] :
            w \in ReadWords, o \in Opts, n \in 1..4, r \in Regexes \ {"none"}, f \in Files}
    \cup {[env |-> "ok", word |-> "map", opts |-> o, nargs |-> IF q \in {"empty"} THEN 1 ELSE 2, regex |-> "none", query |-> q, file |-> "existing"] :
-           o \in {"none", "valid", "noeq"}, q \in Queries}
+           o \in {"none", "valid", "noeq"}, q \in Queries \cup BoundaryQueries}
+   \cup {[env |-> "ok", word |-> w, opts |-> o, nargs |-> 4, regex |-> r, query |-> "valid", file |-> f] :
+           w \in ReadWords, o \in {"none", "valid", "context"}, r \in {"default", "noop"}, f \in PathSpellings}
    \cup {[env |-> "ok", word |-> w, opts |-> o, nargs |-> n, regex |-> "none", query |-> "valid", file |-> "existing"] :
            w \in {".ack", "health", "unknown", ""}, o \in {"none", "valid", "noeq"}, n \in 1..4}
 
@@ -51,7 +58,7 @@ Answer(c) == CASE EnvelopeError(c) -> "error"
                [] c.word \in {"unknown", "", "health"} -> "error"
                [] c.word \in ReadWords /\ LenArgs(c) < 2 -> "error"
                [] c.word \in ReadWords /\ c.regex \in {"wrongprefix", "uncompilable"} -> "error"
-               [] c.word = "map" /\ c.query # "valid" -> "error"
+               [] c.word = "map" /\ c.query \notin ({"valid"} \cup BoundaryQueries) -> "error"
                [] OTHER -> "runs"
 
 VARIABLES cmd
